@@ -205,6 +205,33 @@ def setIndexFinished (st : Store) (m : Manifest) (vs : List Scanner) (r : Report
     some { st with scannedManifest := (vs.map fun s => (m, s)) ++ st.scannedManifest, reports := (m, r) :: st.reports }
   else none
 
+/-- `DeleteManifests` for one digest (datastore/postgres/deletemanifests.go, one
+    transaction per manifest): an unknown manifest is skipped; the manifest row
+    goes, and with it (ON DELETE CASCADE, migration 04) its scanned_manifest
+    rows, its report and its search-index rows; then every layer of the
+    manifest that no remaining manifest refers to is deleted, and with it its
+    scanned_layer rows and its scan artifacts. -/
+def deleteManifest (st : Store) (m : Manifest) : Store :=
+  if m ∈ st.manifests then
+    let ms := st.manifests.filter (· != m)
+    let gone : Layer → Bool := fun l => decide (l ∈ m) && ms.all fun m' => !decide (l ∈ m')
+    { manifests := ms
+      scannedLayer := st.scannedLayer.filter fun x => !gone x.1
+      rows := st.rows.filter fun r => !gone r.layer
+      scannedManifest := st.scannedManifest.filter fun x => x.1 != m
+      reports := st.reports.filter fun x => x.1 != m
+      index := st.index.filter fun x => x.1 != m }
+  else st
+
+/-- `DeleteManifests(ds...)`: the digests one after the other. -/
+def deleteManifests (st : Store) (ms : List Manifest) : Store := ms.foldl deleteManifest st
+
+/-- What `DeleteManifests` returns: the digests it found, in argument order
+    (a digest given twice is found once). -/
+def deleted : Store → List Manifest → List Manifest
+  | _, [] => []
+  | st, m :: ms => if m ∈ st.manifests then m :: deleted (st.deleteManifest m) ms else deleted st ms
+
 end Store
 
 /-! ## The controller -/
@@ -530,10 +557,11 @@ def index (sem : Sem) (o : Oracle) (cfg : Cfg) (m : Manifest) (st : Store) (dead
 /-! ## Histories -/
 
 /-- One operation on a deployment: reconfigure (`libindex.New` on the same
-    store) or index a manifest under a fault oracle. -/
+    store), index a manifest under a fault oracle, or delete manifests. -/
 inductive Op
   | config (cfg : Cfg)
   | index (m : Manifest) (o : Oracle) (dead0 : Bool)
+  | delete (ms : List Manifest)   -- `Libindex.DeleteManifests`
 
 structure World where
   cfg : Cfg := []
@@ -544,12 +572,18 @@ structure Out where
   report : Option Report := none
   err : Option ErrClass := none
   e : Env := {}
+  deleted : List Manifest := []
 
 def step (sem : Sem) (wd : World) : Op → World × Out
   | .config cfg => ({ wd with cfg := cfg }, {})
   | .index m o d =>
     let r := index sem o wd.cfg m wd.st d
     ({ wd with st := r.st, scans := r.e.scans ++ wd.scans }, { report := r.report, err := r.err, e := r.e })
+  | .delete ms =>
+    let st' := wd.st.deleteManifests ms
+    -- the scan log keeps the entries whose scanned_layer row still exists
+    ({ wd with st := st', scans := wd.scans.filter fun x => decide (x ∈ st'.scannedLayer) },
+     { deleted := wd.st.deleted ms })
 
 /-! ## The table of state.go, as the model uses it -/
 
